@@ -41,9 +41,15 @@ def main():
     for n_, (c, r) in enumerate(zip(cases, results)):
         ck.count('routine:' + c['routine']); ck.count('status:' + r['status']); ck.count('n=%d' % len(c['A']))
         moved = r['status'] == 'ok' and (r.get('eff') or 0) > 0 or (r['status'] == 'ok' and r.get('R') != c['A'])
-        ck.case(sample={'routine': c['routine'], 'A': c['A'], 'itr': c.get('itr'), 'seed': c['seed'], 'eff': r.get('eff'), 'draws': len(r['draws'])} if moved else None,
+        ck.case(sample={'routine': c['routine'], 'A': c['A'], 'itr': c.get('itr'), 'seed': c['seed'], 'eff': r.get('eff'), 'draws': len(r['draws'])}
+                if moved and ck.dist.get('routine:' + c['routine'], 0) == 3 else None,
                 nontrivial_key=digest([c['routine'], c['A'], c.get('itr'), c.get('alpha'), r['draws']]) if moved else None)
+        if r['status'] in ('timeout', 'exc'):
+            for pred, info in r['fails']:            # the caller's array must be intact even when the call hangs or raises
+                if pred == 'input-modified':
+                    ck.violation(c['routine'], pred, {'case': c, 'status': r['status']}, cond_of(c, r))
         if r['status'] == 'timeout':
+            ck.count('timeout:' + c['routine'])
             continue
         if r['status'] == 'exc' and c['routine'] == 'randomizer_bin_und' and exc_kind(r['exc']) == 'BCTParamError':
             ck.count('rejected:no-possible-randomization'); continue   # the routine's documented domain check
